@@ -924,6 +924,79 @@ int main(int argc, char **argv)
     };
     run_cases(pl);
 
+    // ---- predicate-only leaves: every 2x3 and 3x2 dense matrix over {0,1} and every 3x2 / 2x3 matrix whose entries follow the
+    //      Toeplitz pattern except in ONE position (non-square shapes with min(m,n) >= 2 are where the diagonal loops of
+    //      is_toeplitz/is_lower/is_upper/is_diagonal have separate bounds; added after seeded change C26 escaped the 2x2 alphabet)
+    {
+        struct PLeaf {
+            std::string name;
+            RCP<const Basic> e;
+            Sem s;
+        };
+        std::vector<PLeaf> PL;
+        auto addm = [&](int r, int cdim, const std::vector<int> &v) {
+            vec_basic vals;
+            std::string nm = std::to_string(r) + "x" + std::to_string(cdim) + "[";
+            for (int t : v) {
+                vals.push_back(integer(t));
+                nm += std::to_string(t) + ",";
+            }
+            PLeaf p;
+            p.name = nm + "]";
+            p.e = immutable_dense_matrix(r, cdim, vals);
+            std::string why;
+            p.s.ok = interp(*p.e, p.s.m, why);
+            if (p.s.ok)
+                PL.push_back(p);
+        };
+        for (int shape = 0; shape < 2; shape++) {
+            int r = shape ? 3 : 2, cdim = shape ? 2 : 3;
+            for (int bits = 0; bits < 64; bits++) {
+                std::vector<int> v(6);
+                for (int k = 0; k < 6; k++)
+                    v[k] = (bits >> k) & 1;
+                addm(r, cdim, v);
+            }
+        }
+        // 4x3 / 3x4 Toeplitz patterns t[i-j] with one perturbed entry
+        for (int shape = 0; shape < 2; shape++) {
+            int r = shape ? 4 : 3, cdim = shape ? 3 : 4;
+            for (int pert = -1; pert < r * cdim; pert++) {
+                std::vector<int> v(r * cdim);
+                for (int i = 0; i < r; i++)
+                    for (int j = 0; j < cdim; j++)
+                        v[i * cdim + j] = 1 + ((i - j) + 8) % 5;
+                if (pert >= 0)
+                    v[pert] = 9;
+                addm(r, cdim, v);
+            }
+        }
+        CaseSet pb;
+        pb.name = "P0b:props(non-square dense)";
+        pb.n = PL.size();
+        pb.counter_names = CN;
+        pb.desc = [&](long long i) { return "predicates/size of dense " + PL[i].name; };
+        pb.crash_sig = [&](long long i, const std::string &oc) {
+            return std::string(oc.find("Segmentation") != std::string::npos ? "crash:SIGSEGV" : oc) + ":props(" + kind(*PL[i].e) + ")";
+        };
+        pb.body = [&](long long i, Ctx &c) {
+            c.eval();
+            c.outcome("props(" + kind(*PL[i].e) + ")");
+            check_props(c, PL[i].e, true, PL[i].s.m, "leaf " + PL[i].name);
+            // and of its transpose (a different loop orientation)
+            try {
+                RCP<const Basic> t = transpose(rcp_static_cast<const MatrixExpr>(PL[i].e));
+                Sem ts;
+                std::string why;
+                if (interp(*t, ts.m, why))
+                    check_props(c, t, true, ts.m, "transpose of leaf " + PL[i].name);
+            } catch (std::exception &) {
+            }
+        };
+        run_cases(pb);
+        R.counters["predicate_only_nonsquare_leaves"] = PL.size();
+    }
+
     // A layer = a probe pass (the first case of every operand-kind class) followed by the full pass.
     // Classes whose probe crashed or hung are quarantined: their other members are counted, not run
     // (every death costs a worker process; the class is reported once through its probe).
